@@ -9,7 +9,12 @@ lists of <=2 lines over {c\n, <<<<<<< TREE\n, c} and over {c\n, sentinel line, c
 (bzr 2a; the first also on git trees) and <=3 lines over {a\n, c}; thorough adds
 <=2 lines over the full 8-line alphabet, <=3 lines over {a\n, b\n, sentinel, c}
 and the sentinel alphabets on git (spaces run in priority order under a wall-clock
-budget; anything not run is reported as a cap).  Every triple is a file in real
+budget; anything not run is reported as a cap).  BASE-absent sub-run (signatures end in
+":base-absent"): the file does not exist in the base tree and THIS and OTHER both add it
+(same path, same file id) - all pairs of line lists <=2 over {c\n, <<<<<<< TREE\n, c}
+(bzr and git) and <=3 over {a\n, c} (bzr); there is then no BASE text, so no .BASE helper
+(or an empty one) is expected, and a resolution must still remove every helper file.
+Every triple is a file in real
 working trees on /dev/shm: BASE, THIS and OTHER are committed, the real
 breezy.merge.Merger / Merge3Merger merges OTHER into THIS, and for conflicted files
 the real breezy.conflicts.resolve(take_this / take_other) runs in copies of the
@@ -63,6 +68,7 @@ ALPHABETS = {
 COMBOS = [(r, sb, ch) for ch in (False, True) for r in (False, True) for sb in (False, True) if not (r and sb)]
 INVALID = [(r, sb, ch) for ch in (False, True) for r in (False, True) for sb in (False, True) if r and sb]
 HELPERS = ("BASE", "THIS", "OTHER")
+NOBASE = ":base-absent"      # suffix of the format label in signatures of the BASE-absent sub-run
 
 _LISTS = {}
 
@@ -198,26 +204,40 @@ def fname(i):
     return "f%04d" % i
 
 
-def build(kind, root, triples):
-    """THIS tree: R(base texts) -> T(this texts); OTHER tree: R -> B (same texts, new revision) -> O."""
+def _add(tree, kind, names):
+    if kind == "bzr":
+        # explicit ids: when both sides add the file independently it is the same file
+        tree.add(names, ids=[b"c19-id-" + n.encode() for n in names])
+    else:
+        tree.add(names)
+
+
+def build(kind, root, triples, base_absent=False):
+    """THIS tree: R(base texts) -> T(this texts); OTHER tree: R -> B (same texts, new revision) -> O.
+    base_absent: the files do not exist in R / B; THIS and OTHER each add them (same path, same file id)."""
     tdir = os.path.join(root, "this")
     odir = os.path.join(root, "other")
     this = mwt.make_tree(kind, tdir)
     names = [fname(i) for i in range(len(triples))]
-    for n, (b, t, o) in zip(names, triples):
-        _write(os.path.join(tdir, n), b)
-    this.add(names)
+    if not base_absent:
+        for n, (b, t, o) in zip(names, triples):
+            _write(os.path.join(tdir, n), b)
+        _add(this, kind, names)
     _commit(this, kind, "base", b"c19-R", 1000000000)
     other = this.controldir.sprout(odir).open_workingtree()
     rev_b = _commit(other, kind, "base again", b"c19-B", 1000000010)
     for n, (b, t, o) in zip(names, triples):
-        if o != b:
+        if base_absent or o != b:
             _write(os.path.join(odir, n), o)
+    if base_absent:
+        _add(other, kind, names)
     rev_o = _commit(other, kind, "other", b"c19-O", 1000000020)
     this.branch.fetch(other.branch, rev_o)      # every merge copy starts with OTHER's revisions present
     for n, (b, t, o) in zip(names, triples):
-        if t != b:
+        if base_absent or t != b:
             _write(os.path.join(tdir, n), t)
+    if base_absent:
+        _add(this, kind, names)
     _commit(this, kind, "this", b"c19-T", 1000000030)
     return tdir, other.branch, rev_b, rev_o
 
@@ -303,7 +323,10 @@ class Res:
 
 def detail_of(kind, alpha, maxlen, idx, combo, **extra):
     b, t, o = triple(alpha, maxlen, idx)
-    d = {"format": kind, "alphabet": alpha, "maxlen": maxlen, "index": idx,
+    base_absent = kind.endswith(NOBASE)
+    if base_absent:
+        kind = kind[:-len(NOBASE)]
+    d = {"format": kind, "base_absent": base_absent, "alphabet": alpha, "maxlen": maxlen, "index": idx,
          "base": list(b), "this": list(t), "other": list(o),
          "reprocess": combo[0], "show_base": combo[1], "cherrypick": combo[2]}
     d.update(extra)
@@ -316,7 +339,7 @@ def size_key(alpha, maxlen, idx, combo):
     return (sum(combo), len(b) + len(t) + len(o), has_s, maxlen, idx, combo)
 
 
-def judge_file(name, trip, exp, files, recs, cooked):
+def judge_file(name, trip, exp, files, recs, cooked, base_absent=False):
     """Compare what the merge left for one file with the statement.  Returns (problem, info) with
     problem None when every clause holds under at least one accepted reading."""
     base, this, other = trip
@@ -351,6 +374,12 @@ def judge_file(name, trip, exp, files, recs, cooked):
         elif conflict:
             want = {"BASE": b"".join(base), "THIS": b"".join(this), "OTHER": b"".join(other)}
             for h in HELPERS:
+                if h == "BASE" and base_absent:
+                    # there is no BASE text: no .BASE file, or (second reading) an empty one
+                    if h in helpers and helpers[h] != b"":
+                        problem = "helper-file-content-wrong:%s" % h
+                        break
+                    continue
                 if h not in helpers:
                     problem = "helper-file-missing:%s" % h
                     break
@@ -388,14 +417,17 @@ def sentinel_defect_explains(trip, exp, info):
 
 # ---------------------------------------------------------------- one batch
 
-def run_batch(kind, alpha, maxlen, idxs, combos, resolve_combos, res, log=None):
+def run_batch(kind, alpha, maxlen, idxs, combos, resolve_combos, res, log=None, base_absent=False):
     """Build the trees for the triples idxs once, merge under every option combination, judge
     every file, resolve in copies.  log (list) receives the raw observations (determinism audit)."""
     triples = [triple(alpha, maxlen, i) for i in idxs]
     root = boot.scratch("c19")
     acc = res.acc
+    fmt = kind
+    if base_absent:
+        kind = fmt + NOBASE     # label used in signatures, counters and details from here on
     try:
-        src_this, other_branch, rev_b, rev_o = build(kind, root, triples)
+        src_this, other_branch, rev_b, rev_o = build(fmt, root, triples, base_absent)
         for ci, combo in enumerate(combos):
             dst = os.path.join(root, "m%d" % ci)
             try:
@@ -406,8 +438,8 @@ def run_batch(kind, alpha, maxlen, idxs, combos, resolve_combos, res, log=None):
                 shutil.rmtree(dst, ignore_errors=True)
                 if len(idxs) > 1:
                     half = len(idxs) // 2
-                    run_batch(kind, alpha, maxlen, idxs[:half], [combo], resolve_combos, res)
-                    run_batch(kind, alpha, maxlen, idxs[half:], [combo], resolve_combos, res)
+                    run_batch(fmt, alpha, maxlen, idxs[:half], [combo], resolve_combos, res, base_absent=base_absent)
+                    run_batch(fmt, alpha, maxlen, idxs[half:], [combo], resolve_combos, res, base_absent=base_absent)
                 else:
                     acc.n += 1
                     sig = "merge:%s:%s:%s" % (type(e).__name__, innermost_repo_function(e), kind)
@@ -427,10 +459,10 @@ def run_batch(kind, alpha, maxlen, idxs, combos, resolve_combos, res, log=None):
                 name = fname(i)
                 trip = triples[i]
                 exp = expectation(alpha, maxlen, idx, combo)
-                problem, info = judge_file(name, trip, exp, files, recs, cooked)
+                problem, info = judge_file(name, trip, exp, files, recs, cooked, base_absent)
                 acc.n += 1
                 b, t, o = trip
-                nontrivial = t != b and o != b and t != o
+                nontrivial = t != o and (base_absent or (t != b and o != b))
                 if nontrivial:
                     acc.nt((kind, trip))
                 tag = "%s:r%d-sb%d-ch%d" % (kind, combo[0], combo[1], combo[2])
@@ -606,12 +638,13 @@ def _work(chunk):
     _quiet()
     res = Res()
     c0 = time.process_time()
-    for kind, alpha, maxlen, start, stop, combos, resolve_combos in chunk:
+    for kind, alpha, maxlen, start, stop, combos, resolve_combos, base_absent in chunk:
         if _DEADLINE[0] is not None and time.time() > _DEADLINE[0]:
             res.acc.count("batches_skipped_at_deadline:%s:%s<=%d" % (kind, alpha, maxlen))
             res.acc.count("triples_skipped_at_deadline", stop - start)
             continue
-        run_batch(kind, alpha, maxlen, list(range(start, stop)), list(combos), set(resolve_combos), res)
+        run_batch(kind, alpha, maxlen, list(range(start, stop)), list(combos), set(resolve_combos), res,
+                  base_absent=base_absent)
     res.acc.count("worker_cpu_ms", int(1000 * (time.process_time() - c0)))
     return res
 
@@ -623,9 +656,16 @@ def plan(ctx):
         ("bzr", "s3", 2, 32, (COMBOS[0],)),
         ("git", "m3", 2, 16, (COMBOS[0],)),
         ("bzr", "t2", 3, 16, (COMBOS[0],)),
+        # BASE absent: the file does not exist in the base tree, THIS and OTHER both add it (same
+        # path / file id); all pairs (THIS, OTHER) of line lists
+        ("bzr", "m3", 2, 16, (COMBOS[0], COMBOS[5]), True),
+        ("git", "m3", 2, 16, (COMBOS[0],), True),
+        ("bzr", "t2", 3, 16, (COMBOS[0],), True),
     ]
     if ctx.thorough:
         return quick + [
+            ("bzr", "q4", 2, 32, (COMBOS[0], COMBOS[5]), True),
+            ("git", "s3", 2, 16, (COMBOS[0],), True),
             ("git", "s3", 2, 16, (COMBOS[0],)),
             ("bzr", "q4", 2, 32, (COMBOS[0],)),
             ("bzr", "t4", 3, 32, (COMBOS[0], COMBOS[5])),
@@ -649,27 +689,34 @@ def run(ctx):
     # determinism audit: one batch of each format twice, raw observations compared; refusal of the
     # invalid option combination
     for kind in sorted({s[0] for s in spaces}):
-        sp = [s for s in spaces if s[0] == kind][0]
-        n = len(lists(sp[1], sp[2])) ** 3
-        # a batch from the middle of the space (the first triples are all-empty files)
-        start = n // 2
-        idxs = list(range(start, min(n, start + 8)))
-        logs = []
-        for _ in range(2):
-            log = []
-            run_batch(kind, sp[1], sp[2], idxs, COMBOS, set(sp[4]), Res(), log)
-            logs.append(log)
-        if logs[0] != logs[1]:
-            raise HarnessError("determinism audit failed for %s batch %d" % (kind, start))
-        main.acc.count("determinism_audit_batches")
+        for absent in (False, True):
+            sps = [s for s in spaces if s[0] == kind and bool(s[5:] and s[5]) == absent]
+            if not sps:
+                continue
+            sp = sps[0]
+            n = len(lists(sp[1], sp[2])) ** (2 if absent else 3)
+            # a batch from the middle of the space (the first triples are all-empty files)
+            start = n // 2
+            idxs = list(range(start, min(n, start + 8)))
+            logs = []
+            for _ in range(2):
+                log = []
+                run_batch(kind, sp[1], sp[2], idxs, COMBOS, set(sp[4]), Res(), log, base_absent=absent)
+                logs.append(log)
+            if logs[0] != logs[1]:
+                raise HarnessError("determinism audit failed for %s batch %d (base_absent=%s)" % (kind, start, absent))
+            main.acc.count("determinism_audit_batches")
         refusals[kind] = {"r%d-sb%d-ch%d" % tuple(int(x) for x in k): v for k, v in check_refusal(kind, main).items()}
     space_report = []
     capped = []
-    for kind, alpha, maxlen, bs, rcombos in spaces:
-        n = len(lists(alpha, maxlen)) ** 3
+    for sp in spaces:
+        kind, alpha, maxlen, bs, rcombos = sp[:5]
+        base_absent = bool(sp[5:] and sp[5])
+        # BASE absent = the triples whose BASE is the first (empty) line list, i.e. indices < n^2
+        n = len(lists(alpha, maxlen)) ** (2 if base_absent else 3)
         items = []
         for start in range(0, n, bs):
-            items.append((kind, alpha, maxlen, start, min(n, start + bs), tuple(COMBOS), tuple(rcombos)))
+            items.append((kind, alpha, maxlen, start, min(n, start + bs), tuple(COMBOS), tuple(rcombos), base_absent))
         if limit and len(items) > limit:
             # keep batches spread over the whole space
             step = len(items) / float(limit)
@@ -679,12 +726,12 @@ def run(ctx):
         before = main.acc.n
         for r in par.pmap(_work, items, seed=ctx.seed, chunks_per_job=16):
             main.merge(r)
-        key = "batches_skipped_at_deadline:%s:%s<=%d" % (kind, alpha, maxlen)
+        key = "batches_skipped_at_deadline:%s:%s<=%d" % (kind, alpha, maxlen)   # (shared by both sub-runs)
         skipped = main.acc.counters.get(key, 0)
         if skipped:
             capped.append("%s %s<=%d: %d of %d batches not run (time budget %ds)" % (
                 kind, alpha, maxlen, skipped, len(items), budget))
-        space_report.append({"format": kind, "alphabet": [x for x in ALPHABETS[alpha][0]] + [ALPHABETS[alpha][1]],
+        space_report.append({"format": kind, "base_absent": base_absent, "alphabet": [x for x in ALPHABETS[alpha][0]] + [ALPHABETS[alpha][1]],
                              "max_lines": maxlen, "line_lists": len(lists(alpha, maxlen)), "triples": n,
                              "option_combinations": len(COMBOS), "batches": len(items), "batches_skipped": skipped,
                              "file_merges_judged": main.acc.n - before,
@@ -740,7 +787,8 @@ def replay(ctx, data):
     combo = (bool(d["reprocess"]), bool(d["show_base"]), bool(d["cherrypick"]))
     res = Res()
     rc = {combo} if data["signature"].startswith("resolve:") else set()
-    run_batch(d["format"], d["alphabet"], d["maxlen"], [d["index"]], [combo], rc, res)
+    run_batch(d["format"], d["alphabet"], d["maxlen"], [d["index"]], [combo], rc, res,
+              base_absent=bool(d.get("base_absent")))
     for sig in sorted(res.best):
         print("  %s: %s" % (sig, str(res.best[sig][1])[:600]))
     return not res.best
